@@ -263,6 +263,39 @@ func (r *c02run) attack(dir int, op SOp) {
 	w.Q[dir] = append(genuine, w.Q[dir]...)
 }
 
+// forgeMatched: a MAC key can only pass for the one key pair it belongs to, so for every key disclosed on the
+// wire that authenticates messages towards rcv (whoever disclosed it), a message is forged for exactly that pair
+// with a fresh counter. The receiver must refuse: either the pair has left its window, or the key was never
+// disclosed. This covers every window position at once, including messages still held back by the network.
+func (r *c02run) forgeMatched(rcv int, last *ref.ObsMsg) bool {
+	s := r.s
+	hdr := last.Raw[:last.Hdr.Len]
+	n := 0
+	for _, ss := range s.Obs.Sessions {
+		if ss != last.Sess {
+			continue
+		}
+		pks := s.Obs.PairKeys(1-rcv, ss)
+		sortPairs(pks)
+		for _, pk := range pks {
+			if _, disclosed := s.Obs.Disclosed[string(pk.SendMAC)]; !disclosed || n >= 12 {
+				continue
+			}
+			n++
+			fb := append(append([]byte{}, hdr...), ref.BuildData(hdr, 0, pk.Own, pk.Their, last.Data.NextDH, last.Data.Ctr+7000, last.Data.Enc, pk.SendMAC, nil)...)
+			before := len(s.W.Q[rcv])
+			c0 := s.W.Receive(rcv, ref.Armor(fb))
+			s.W.Q[rcv] = s.W.Q[rcv][:before]
+			r.o.Class("forge-for-the-pair-of-a-disclosed-key")
+			if s.hasEffect(c0) {
+				r.o.Fail("C02/accepted-forge-disclosed-key", "%s acted on a data message authenticated with a MAC key that had been disclosed on the wire while it still accepts that key pair (sender key %d, recipient key %d)", s.W.P[rcv].Name, pk.Own, pk.Their)
+				return true
+			}
+		}
+	}
+	return false
+}
+
 func filterOut(q []*sim.Wire, c *sim.Call) []*sim.Wire {
 	if c == nil || len(c.Out) == 0 {
 		return q
@@ -336,6 +369,41 @@ func runC02(sc *SessScript) *sim.Outcome {
 				o.Class("plaintext-injected-while-encrypted")
 				r.hits++
 			}
+		case "holdback":
+			// the network holds one side's message back while the conversation goes on around it; whatever is
+			// disclosed meanwhile must not help to forge towards the receiver that has not caught up
+			a := op.W & 1
+			if !s.W.P[0].C.IsEncrypted() || !s.W.P[1].C.IsEncrypted() {
+				break
+			}
+			s.Exec(SOp{K: "flush"})
+			s.Send(a, s.Text(a, 8, 0))
+			s.Exec(SOp{K: "flush"})
+			for i := 0; i <= op.I%2; i++ {
+				s.Send(a, s.Text(a, 8, 0)) // held back
+			}
+			s.Send(1-a, s.Text(1-a, 8, 0))
+			for len(s.W.Q[1-a]) > 0 {
+				s.DeliverQ(1-a, 0)
+			}
+			s.Send(a, s.Text(a, 8, 0))
+			var last *ref.ObsMsg
+			for i := len(s.Seen) - 1; i >= 0; i-- {
+				if m := s.Seen[i]; m.From == a && m.Data != nil && m.Verified {
+					last = m
+					break
+				}
+			}
+			if last != nil {
+				o.Class("held-back")
+				r.hits++
+				if r.forgeMatched(1-a, last) {
+					return o
+				}
+			}
+			if op.F%2 == 0 {
+				s.Exec(SOp{K: "flush"})
+			}
 		case "atk":
 			r.attack(op.W&1, op)
 		case "rekey":
@@ -380,6 +448,9 @@ func runC02(sc *SessScript) *sim.Outcome {
 			}
 			hdr := last.Raw[:last.Hdr.Len]
 			d := last.Data
+			if r.forgeMatched(rcv, last) {
+				return o
+			}
 			for _, k := range keys {
 				for _, ids := range [][2]uint32{{d.SenderKeyID, d.RecipKeyID}, {d.SenderKeyID, d.RecipKeyID + 1}, {d.SenderKeyID + 1, d.RecipKeyID}} {
 					fb := append(append([]byte{}, hdr...), ref.BuildData(hdr, 0, ids[0], ids[1], d.NextDH, d.Ctr+1000, d.Enc, k, nil)...)
@@ -415,7 +486,7 @@ func genAtk(rt *rapid.T) SOp {
 
 func TestProp_C02_Attack(t *testing.T) {
 	defer sim.MarkCompleted("C02attack", false)
-	kinds := []string{"pp", "pp", "send", "send", "send", "dl", "dl", "atk", "atk", "atk", "atk", "atk", "atk", "rekey", "smp", "ans", "xk", "age", "injplain", "injplain"}
+	kinds := []string{"pp", "pp", "send", "send", "send", "dl", "dl", "holdback", "holdback", "atk", "atk", "atk", "atk", "atk", "atk", "rekey", "smp", "ans", "xk", "age", "injplain", "injplain"}
 	rapid.Check(t, func(rt *rapid.T) {
 		sc := &SessScript{Cfg: genSessCfg(rt)}
 		if rapid.IntRange(0, 3).Draw(rt, "wsstart") == 0 {
